@@ -41,6 +41,13 @@ impl<'a> SendBlocksProofProcess<'a> {
 
     pub(crate) fn execute(self) -> Status {
         let status = self.execute_internally();
+        if !status.is_ok() {
+            // The request is removed below, so the headers which are fetching from this peer
+            // have to be released right now, otherwise they are never requested again.
+            self.protocol
+                .peers()
+                .mark_fetching_headers_timeout(self.peer_index);
+        }
         self.protocol
             .peers()
             .update_blocks_proof_request(self.peer_index, None, false);
